@@ -35,6 +35,13 @@ Theorem C09_unmetered : forall conf q, lvl_ok q -> exists c1 c2, add_qer conf q 
 Proof. exact c09_unmetered. Qed.
 Print Assumptions C09_unmetered.
 
+(* ... and only then: an open gate with any signalled rate is metered *)
+Theorem C09_metered_when_rate_signalled : forall conf q, lvl_ok q -> exists c1 c2, add_qer conf q = [c1; c2] /\
+  (q_uls q = 0 -> (q_ulmbr q <> 0 \/ q_ulgbr q <> 0) -> k_gate c1 = 0) /\
+  (q_dls q = 0 -> (q_dlmbr q <> 0 \/ q_dlgbr q <> 0) -> k_gate c2 = 0).
+Proof. exact c09_metered_when_rate. Qed.
+Print Assumptions C09_metered_when_rate_signalled.
+
 (* the label decides the table and the key: application QERs per (interface, QER id, F-SEID), the session QER per
    (interface, F-SEID) - one entry per session and direction *)
 Theorem C09_table : forall conf q, lvl_ok q -> exists c1 c2, add_qer conf q = [c1; c2] /\
